@@ -239,6 +239,36 @@ pub fn shim_slice_len(s: &[u8]) -> (r: usize)
     s.len()
 }
 
+/// R2 shim for `v.zeroize()` on a Vec<u8> (zeroize crate: every byte set to 0, then the Vec is cleared)
+#[verifier::external_body]
+pub fn shim_zeroize_vec(v: &mut Vec<u8>)
+    ensures
+        final(v)@.len() == 0,
+{
+    use zeroize::Zeroize;
+    v.zeroize()
+}
+
+/// R2 shim for `a.zeroize()` on [u64; 8] (zeroize crate)
+#[verifier::external_body]
+pub fn shim_zeroize_u64x8(a: &mut [u64; 8])
+    ensures
+        forall|i: int| 0 <= i < 8 ==> final(a)@[i] == 0u64,
+{
+    use zeroize::Zeroize;
+    a.zeroize()
+}
+
+/// R2 shim for `a.zeroize()` on [u8; 128] (zeroize crate)
+#[verifier::external_body]
+pub fn shim_zeroize_u8x128(a: &mut [u8; 128])
+    ensures
+        final(a)@ == zeros(128),
+{
+    use zeroize::Zeroize;
+    a.zeroize()
+}
+
 // ------------------------------------------------------------------------------------------------
 // Known-answer tests
 // ------------------------------------------------------------------------------------------------
